@@ -240,6 +240,21 @@ def s1(ctx, rep, sweep=False):
     rk = set(keys_read(ctx, dec))
     rep.put(bool(wk) and wk == rk, "S1", "agreement", "encode_state keys == decode_state keys", enc, None, str(sorted(wk)),
             f"encode_state writes {sorted(wk)}, decode_state reads {sorted(rk)}")
+    # each entry is a lossless image of the state field of the same name: the field itself, or an element-wise map over it
+    # (no filter, no regrouping under a coarser key)
+    from ..engine import deref
+    sp = enc.params[0]
+    for r in returns_of(enc):
+        d = dict_items(deref(enc, r.value)) if r.value is not None else None
+        for k_, v_ in (d or {}).items():
+            v = deref(enc, v_)
+            ok_ = U(v) == f"{sp}.{k_}"
+            if isinstance(v, ast.ListComp) and len(v.generators) == 1 and not v.generators[0].ifs:
+                ok_ = U(deref(enc, v.generators[0].iter)) == f"{sp}.{k_}"
+            rep.put(ok_, "S1", "agreement", f"encode_state: `{k_}` is written element by element from state.{k_}", enc, v_, "",
+                    f"`{k_}` is built from `{U(v)[:80]}`, not from every element of {sp}.{k_}: entries are dropped or merged in the snapshot "
+                    "(e.g. several pending evaluations of one trial at different resource levels collapse into one) and the restored "
+                    "searcher continues from a different state")
     return n
 
 
